@@ -5,7 +5,11 @@ use crate::exec::{execute, Fail};
 use crate::scenario::{Scenario, Step};
 
 fn still_fails(sc: &Scenario, class: &str) -> Option<Fail> {
-    let out = execute(sc);
+    if simcore::minimise_expired() {
+        return None;
+    }
+    let sc = sc.clone();
+    let out = simcore::with_timeout(move || execute(&sc))?;
     if out.harness_error.is_some() {
         return None;
     }
